@@ -242,11 +242,15 @@ PROPS = {
                    'the well-formed swap diagram F(x) @ F(y) -> F(y) @ F(x) of the images (contract of Diagram.swap, all image '
                    'lengths). The pregroup facts about adjoints used throughout are lemmas derived from the verified bodies of '
                    'rigid.Ty.l / .r and rigid.Ob.l / .r. '
-                   'Functoriality as == between images (then, tensor, id, dagger, slices, sums, bubbles), the cat functor and the '
-                   'object map of rigid functors (adjoints of any winding number): bounded stand-in.',
-        level_note='Trusted: pyvc + solvers; precondition: images given by the user are well-typed and deterministic. Assumed at '
-                   'call sites: the object-map branch of __call__ is a homomorphism on types and, for rigid functors, commutes '
-                   'with .l / .r (bounded by the driver: adjoints of winding number -2..2).',
+                   'Object map: the type branches of monoidal / biclosed / rigid Functor.__call__ compute the snoc-recursion over '
+                   'the images of one-object types (for rigid functors the z-fold adjoint of the basic image, via the local '
+                   'function adjoint and two loop invariants); homomorphism and commutation with adjoints follow as lemmas by '
+                   'induction. Functoriality as == between images (then, tensor, id, dagger, slices, sums, bubbles) and the cat '
+                   'functor: bounded stand-in.',
+        level_note='Trusted: pyvc + solvers; L-ind (induction on sequences / loop counters), L-ext, L-ob. Preconditions: the object '
+                   'mapping is defined on every one-object type with types as values; images given by the user for boxes are '
+                   'well-typed and deterministic. The object map (homomorphism on types; for rigid functors the z-fold adjoints '
+                   'and commutation with .l / .r) is verified on the real type branches and derived by lemmas, not assumed.',
         technique='VC generation from the real AST with a relational loop invariant (z3/cvc5); bounded run-time contracts '
                   'for the equational clauses'),
     'C06': dict(
@@ -277,14 +281,31 @@ PROPS = {
     'C07': dict(
         title='Snake removal is sound for rigid diagrams',
         level='exploration',
-        vc=[], sym=[], rtc='C07',
-        level_text='Bounded stand-in: all rigid diagrams with <= 3 (thorough 4) boxes over 13 box kinds (cups and caps in all '
+        vc=['rewriting.snake_removal.<locals>.follow_wire', 'rewriting.snake_removal.<locals>.find_snake',
+            'rewriting.snake_removal.<locals>.unsnake[adjacent]', 'canary:unsnake.without_type_test',
+            'rigid.Diagram.transpose', 'rigid.Cup.__init__', 'rigid.Cap.__init__', 'rigid.Cup.dagger', 'rigid.Cap.dagger'],
+        sym=[], rtc='C07',
+        level_text='Discharged (VC, diagrams of any length and width): three of the local functions of snake_removal. '
+                   'follow_wire: with the loop invariant "j is the offset of the followed wire below box i" (the wire position is '
+                   'a ghost function defined from the statement: a box wholly left of the wire shifts it by |cod| - |dom|) it '
+                   'never leaves the bounds, returns the first box whose domain covers the wire or len(diagram), and leaves the '
+                   'offset unchanged with no obstruction when that is the very next box. find_snake: whatever it returns is a Cap '
+                   'above a Cup whose straight-through wire has the same type above and below (the snake-equation clause; '
+                   'dropping the type comparison, the defect F4 of the pinned tree, fails this obligation) and, when adjacent, '
+                   'the cup sits on the opposite leg of the cap; no IndexError. unsnake, adjacent case: for such a pair with '
+                   'no obstruction exactly one diagram is yielded, well-formed, with the input dom and cod and two boxes '
+                   'fewer; a canary states the same without the type comparison and must be refuted (the layer composition '
+                   'raises). Also the producers of its inputs: transposes, Cup / Cap constructors and daggers. '
+                   'Bounded stand-in for everything else (obstruction removal with its index bookkeeping, the main loop, '
+                   'semantic invariance, termination): all rigid diagrams with <= 3 (thorough 4) boxes over 13 box kinds (cups and caps in all '
                    'four orientations incl. non-snake adjacent pairs, adjoint wires, a scalar, daggers) on 5 domains plus '
                    'transposes and obstructed snakes: every yielded step and the normal form are well-typed, keep dom/cod, '
                    'denote the same tensor under a rigid functor into tensors (random integer arrays), no matching cap/cup '
                    'pair is left, only NotImplementedError escapes.',
-        level_note='No obligation proved for this property; contracts for follow_wire / find_snake / unsnake are stated in '
-                   'DESIGN.md and not discharged in this build.',
+        level_note='Category exploration: the obstruction-removal loops of unsnake (interchanges with index bookkeeping), the main '
+                   'loop, "no yankable pair is left" (the converse direction of find_snake) and the semantic clause are not '
+                   'under a discharged contract. Assumed in the VCs: the class invariants of Cup / Cap (two one-object legs; '
+                   'proved for their constructors).',
         technique='bounded run-time contracts with an independent wire-tracking oracle and tensor semantics'),
     'C10': dict(
         title='Swaps and permutations realise exactly the requested wire permutation',
@@ -363,10 +384,11 @@ PROPS = {
                    '(nested, composite sides), Curry for every 1 <= n_wires <= len(dom) on both sides, derivations and CCG trees.',
         level_note='Call-site contracts: rigid cups(l, r) / caps(l, r) return a well-formed diagram l @ r -> Ty() / Ty() -> l @ r '
                    'when l.r == r or r.r == l and raise AxiomError otherwise; swap(l, r) returns a well-formed l @ r -> r @ l '
-                   '(both proved: rigid.cups / caps, Diagram.swap, part of this check); assumed: Upgrade is the identity on the modelled fields; '
-                   'the functor is a homomorphism on tensors of types '
-                   '(the `len(diagram) > 1` branch, as in C04) and sends a sub-diagram to a well-formed diagram F(dom) -> F(cod) '
-                   '(induction hypothesis at the recursive call in the Curry branch). Precondition for Curry: 0 <= n_wires <= '
+                   '(both proved: rigid.cups / caps, Diagram.swap, part of this check); the pregroup facts about adjoints are lemmas '
+                   'over the verified rigid.Ty.l / .r; the functor is a homomorphism on tensors of types by the verified '
+                   '`len(diagram) > 1` branch and the induction lemma (as in C04). Assumed: the functor sends a sub-diagram to a '
+                   'well-formed diagram F(dom) -> F(cod) (induction hypothesis at the recursive call in the Curry branch) and is '
+                   'applied recursively to the two sides of a slash type. Precondition for Curry: 0 <= n_wires <= '
                    'len(dom) (zero wires and curried sides with an empty image are covered since fix 367f1b2). The parser / '
                    'generator / tree-walk clauses are bounded, not proved.',
         technique='VCs from the real AST of the rule constructors, the functor dispatch and the rule images, discharged by '
@@ -455,4 +477,4 @@ FIX_COMMITS = ['da35a0f fix: Y gate', 'e208434 fix: Ry', '1d0097a fix: Controlle
 def claimed():
     return sorted(PROPS)
 
-CONTRACT_MODULES = ['core', 'rewriting', 'lemmas', 'eqhash', 'functors', 'grammar', 'cartesian', 'structural', 'types', 'daggers']
+CONTRACT_MODULES = ['core', 'rewriting', 'lemmas', 'eqhash', 'functors', 'grammar', 'cartesian', 'structural', 'types', 'daggers', 'snakes']
